@@ -14,7 +14,7 @@ from .. import gen
 TRANSLATOR = os.path.join(ROOT, 'harness', 'translate', 'py2gallina_c06.py')
 GEN_FILE = 'DimWiseGen.v'
 GEN_CHAIN = ['Base/PyC06.v', 'Gen/DimWiseGen.v', 'Proofs/GenDimWiseEq.v', 'Proofs/GenDimWiseSubEq.v', 'Gen/RefContainerGen.v',
-             'Proofs/GenRefContEq.v', 'Props/C06gen.v']
+             'Proofs/GenRefContEq.v', 'Proofs/GenDimWiseStripe.v', 'Props/C06gen.v']
 EXTRA_PROPS = ('C06gen',)
 ASSUMPTION = gen.ASSUMPTION + ('; C06/C03 front end: unannotated parameters of modify_according_to_levelvec / update_coarsening_values '
                                'declared int / List[int]; OBJECT VIEWS: a RefinementObjectSingleDimension is read as its levels '
